@@ -318,7 +318,7 @@ func vtC18Gen(r *rand.Rand, i int) (string, []int64) {
 	anom := style == "anom" || r.Intn(4) == 0
 	n := 2 + r.Intn(5)
 	if style == "degenerate" {
-		n = 1 + r.Intn(3)
+		n = r.Intn(4)
 	}
 	cpuActive := r.Intn(7) != 0
 	podsActive := r.Intn(5) == 0
@@ -397,7 +397,18 @@ func vtC18Gen(r *rand.Rand, i int) (string, []int64) {
 	if anom {
 		k, kn = int64(1+r.Intn(3)), int64(1+r.Intn(2))
 	}
-	in := []int64{numberOfNodes, dry, 0, sel, vtB(dev), vtB(anom), k, kn}
+	// NodeFit reserves capacity on the first fitting target in map-iteration order: only
+	// generated where at most one node can be a target (two nodes, or one schedulable node)
+	fit := vtB(r.Intn(4) == 0)
+	only := -1
+	if fit != 0 {
+		if r.Intn(2) == 0 {
+			n = 2
+		} else if n > 0 {
+			only = r.Intn(n)
+		}
+	}
+	in := []int64{numberOfNodes, dry, fit, sel, vtB(dev), vtB(anom), k, kn}
 	for d := 0; d < 3; d++ {
 		in = append(in, thr[d][:]...)
 	}
@@ -415,6 +426,17 @@ func vtC18Gen(r *rand.Rand, i int) (string, []int64) {
 				capm += r.Int63n(1 << 30)
 			}
 			capp = []int64{110, 30, 250}[r.Intn(3)]
+		}
+		if style == "degenerate" {
+			if r.Intn(4) == 0 {
+				capc = 0
+			}
+			if r.Intn(6) == 0 {
+				capm = 0
+			}
+			if r.Intn(5) == 0 {
+				capp = 0
+			}
 		}
 		caps[j] = [3]int64{capc, capm, capp}
 		member := int64(1)
@@ -446,6 +468,9 @@ func vtC18Gen(r *rand.Rand, i int) (string, []int64) {
 					level[j] = r.Intn(4)
 				}
 				unsched := vtB(r.Intn(12) == 0)
+				if only >= 0 {
+					unsched = vtB(j != only)
+				}
 				fresh := int64(1)
 				if r.Intn(12) == 0 || try > 40 {
 					fresh = []int64{0, 2, 3, 4}[r.Intn(4)]
@@ -453,6 +478,9 @@ func vtC18Gen(r *rand.Rand, i int) (string, []int64) {
 				unitc, unitm := int64(1), int64(1)
 				if dev {
 					unitc, unitm = 125, caps[j][1]>>10
+					if unitm == 0 {
+						unitm = 1
+					}
 				}
 				frac := func() float64 {
 					switch level[j] {
@@ -511,6 +539,18 @@ func vtC18Gen(r *rand.Rand, i int) (string, []int64) {
 						}
 					}
 				}
+				if !dev && r.Intn(8) == 0 {
+					// usage exactly at / one above a memory threshold
+					pc := []int64{thr[1][0], thr[1][1]}[r.Intn(2)]
+					if pc == -1 {
+						pc = 100
+					}
+					target := int64(float64(pc)*0.01*float64(caps[j][1])) + int64(r.Intn(2))
+					if ns := sysm + target - u[1]; ns >= 0 {
+						u[1] += ns - sysm
+						sysm = ns
+					}
+				}
 				if fresh == 1 {
 					if u[0] != 0 || u[1] != 0 || u[2] != 0 {
 						s := vtC18Score(u, caps[j], w, cpuActive)
@@ -540,6 +580,9 @@ func vtC18Gen(r *rand.Rand, i int) (string, []int64) {
 		}
 	}
 	label := style
+	if fit != 0 {
+		label += "+fit"
+	}
 	if dev {
 		label += "+dev"
 	}
